@@ -82,3 +82,17 @@ def close64(a, b, rtol=1e-4, atol=1e-5, extra_atol=None) -> bool:
     with np.errstate(invalid="ignore"):
         ok = (np.abs(a - b) <= tol) | (np.isnan(a) & np.isnan(b)) | ((a == b))
     return bool(np.all(ok))
+
+
+def within_float32_exp_range(indep: dict, names) -> bool:
+    """False when a log-scale variable is so extreme that its exponential leaves the float32 range (the state then holds
+    0 or inf where the float64 reference holds 1e-56 or 1e+60: not comparable, and not a statement about the densities)."""
+    for nm in names:
+        if nm.startswith("log_") or nm.startswith("n_log_") or nm in ("xi", "deltas"):
+            v = indep.get(nm)
+            if v is None:
+                continue
+            a = rm.f64(v)
+            if a.size and np.nanmax(np.abs(a)) > 80:
+                return False
+    return True
